@@ -75,16 +75,16 @@ def families(tier: str) -> list[dict]:
     # resume cycles, intervals that do not divide one another) -- deviations
     # that need a long history (a counter crossing a threshold, a cache going
     # stale) are out of reach of the exhaustive depth
-    L = 48 if quick else 110
+    L = 40 if quick else 110
     m1 = dict(base, F=3, I=5, in_hook=True, accum=2, damping='damp_lin',
               decay='expdecay')
     fams.append(reffam.fam(m1, ['Train', 'Step', 'Eval'], L, micro=[1, 2],
-                           exhaustive=False, num=3 if quick else 40,
+                           exhaustive=False, num=2 if quick else 40,
                            spec_depth=5))
     m2 = dict(base, F='int_1_3', I=4, in_hook=False, accum=1,
               method='inverse', kl_clip='kl_lin', lr='lr_lin')
     fams.append(reffam.fam(m2, ['Train', 'Step', 'Save', 'Load'], L,
-                           exhaustive=False, num=3 if quick else 40,
+                           exhaustive=False, num=2 if quick else 40,
                            spec_depth=5, save_args=(True,),
                            load_args=(True, False)))
     m3 = dict(base, F=2, I=2, in_hook=True, accum=1, prediv=True,
@@ -92,6 +92,41 @@ def families(tier: str) -> list[dict]:
     fams.append(reffam.fam(m3, ['Train', 'Step', 'Sched', 'Reset'], L,
                            sched_args=[-1], exhaustive=False,
                            num=2 if quick else 30, spec_depth=5))
+    # histories of a LONG-RUNNING job: the step counter starts far from zero
+    # (restored from a state that carries only the counters) and crosses
+    # 2**8, 2**16, 10**6 during the behaviour
+    for s0, F, I, acc, hook in ((254, 1, 2, 2, True), (65532, 2, 4, 1, False),
+                                (999999, 1, 3, 2, True)):
+        cz = dict(base, F=F, I=I, in_hook=hook, accum=acc, steps0=s0,
+                  damping=0.05, decay=0.9)
+        fams.append(reffam.fam(cz, ['Train', 'Step'], 16 if quick else 40,
+                               micro=[acc], exhaustive=False,
+                               num=2 if quick else 12, spec_depth=4))
+    # resumed long-running job with CALLABLE intervals whose value at the
+    # restored step differs from the value at small steps
+    for s0 in (64, 1024):
+        cz = dict(base, F='int_1_2', I='int_2_1', in_hook=True, accum=1,
+                  steps0=s0)
+        fams.append(reffam.fam(cz, ['Train', 'Step'], 10, micro=[1],
+                               exhaustive=False, num=2, spec_depth=4))
+    # directed long histories (scripts): a USED instance is rolled back to an
+    # early checkpoint after many steps (load_state_dict into the same
+    # object), with callable hyper-parameters
+    def ts(n: int) -> list:
+        return [('train', 1), ('step', 0)] * n
+    scripts = [(18, True, dict(damping='damp_lin', decay='decay_lin'))]
+    if not quick:
+        scripts.append((34, False, dict(damping='damp_lin', F=1, I=1,
+                                        kl_clip='kl_lin', lr='lr_lin')))
+        scripts.append((70, True, dict(damping='damp_lin', F='int_1_3', I=2)))
+    for nlate, comp, extra in scripts:
+        cz = dict(base, F=extra.pop('F', 2), I=extra.pop('I', 3),
+                  in_hook=True, accum=1, **extra)
+        sc = ts(3) + [('save', True)] + ts(nlate) + [('rollback', comp)] + ts(3)
+        fams.append(reffam.fam(cz, ['Train', 'Step', 'Save', 'Rollback'],
+                               len(sc), micro=[1], exhaustive=True,
+                               spec_depth=4, script=sc, save_args=(True,),
+                               load_args=(True, False)))
     return fams
 
 
